@@ -10,7 +10,7 @@ import re
 import sys
 
 from . import ir0
-from .irval import sizeof, field_offset
+from .irval import sizeof, field_offset, _split_args
 
 sys.setrecursionlimit(20000)
 
@@ -23,6 +23,8 @@ INLINE_STD = re.compile(r"^(?:[\w:<>,&* ]+? )?std::(exchange|__exchange|move|for
 INLINE = re.compile(r"^(?:auto |void |decltype\(auto\) )?boost::multi::(?:detail::array_allocator|array_types|static_array|array_ref|array|subarray|"
                     r"const_subarray|move_subarray|elements_range_t)<")
 
+INLINE_FREE = re.compile(r"^(?:[\w:<>,&* ]+? )?boost::multi::\w+\((?:boost::multi::)?(array|static_array|array_ref|subarray|const_subarray|move_subarray)<")
+
 PRIMS = [
     # (regex on demangled callee, event kind, may throw)
     (re.compile(r"\b(?:adl_)?(?:alloc_)?uninitialized_(copy|move|fill|value_construct|default_construct)(_n)?_t::operator\(\)"), "construct", True),
@@ -34,6 +36,19 @@ PRIMS = [
     (re.compile(r"std::allocator_traits<.*>::select_on_container_copy_construction\("), "socc", False),
     (re.compile(r"std::allocator_traits<.*>::max_size\("), "pure", False),
 ]
+
+
+CONTAINER_CLASSES = {"array_allocator", "array_types", "static_array", "array_ref", "array", "subarray", "const_subarray", "move_subarray", "elements_range_t"}
+
+
+def container_member(dm):
+    """member function (template) of a container-layer class, whatever its return type is spelled like"""
+    sh = short(dm)
+    head = sh.split("(")[0].split()
+    if not head:
+        return False
+    q = head[-1].split("::")
+    return len(q) >= 2 and q[-2] in CONTAINER_CLASSES
 
 
 def short(name):
@@ -91,7 +106,7 @@ class Interp:
         if callee in self.mod.funcs:
             if self.opaque_extra and self.opaque_extra.search(dm):
                 return ("opaque", None, self.may_throw.get(callee, True), dm)
-            if INLINE.search(dm) or INLINE_STD.search(dm) or (self.inline_extra and self.inline_extra.search(dm)):
+            if INLINE.search(dm) or INLINE_STD.search(dm) or INLINE_FREE.search(dm) or container_member(dm) or (self.inline_extra and self.inline_extra.search(dm)):
                 return ("inline", None, self.may_throw.get(callee, True), dm)
             return ("opaque", None, self.may_throw.get(callee, True), dm)
         return ("extern", None, not self.mod.is_nounwind(callee), dm)
@@ -269,6 +284,12 @@ class Interp:
             reg, off = v[1], v[2]
             if off is not None and (reg, off) in path.mem:
                 c = path.mem[(reg, off)]
+                if isinstance(c, tuple) and c and c[0] == "xv" and reg[0] == "alloca":
+                    # a small aggregate returned in registers and spilled field by field: the object is the aggregate itself
+                    cells = [v2 for (r, o), v2 in path.mem.items() if r == reg and isinstance(o, int) and o >= off]
+                    aggs = {unxv(v2) for v2 in cells}
+                    if len(aggs) == 1 and None not in aggs:
+                        return ("@", aggs.pop())
                 return ("@", c)
             if reg[0] == "heap":
                 return v
@@ -276,9 +297,11 @@ class Interp:
                 return ("ref", reg, off, path.ver.get(reg, 0))
             if off is not None:
                 # aggregate the known scalar cells of a local object
-                cells = tuple(sorted(((o, self._h(c)) for (r, o), c in path.mem.items() if r == reg and o >= off), key=lambda t: t[0]))
+                cells = tuple(sorted(((o, self._h(c)) for (r, o), c in path.mem.items() if r == reg and isinstance(o, int) and o >= off), key=lambda t: t[0]))
                 if cells:
                     return ("@cells", cells)
+                if reg[0] == "alloca" and not path.mem.get((reg, "dirty")) and len(reg) > 4:
+                    return ("obj0", reg[4])      # never written: two such temporaries of one type hold the same (indeterminate / empty) value
             return ("ref", reg, off)
         return v
 
@@ -290,7 +313,7 @@ class Interp:
         op = ins.op
         if op == "alloca":
             ty = ins.text.split("alloca", 1)[1].split(",")[0].strip()
-            env[ins.dst] = ("p", ("alloca", frame, ins.dst, tracked_type(ty)), 0)
+            env[ins.dst] = ("p", ("alloca", frame, ins.dst, tracked_type(ty), ty), 0)
             return None
         if op == "bitcast" or op in ("inttoptr", "ptrtoint", "sext", "zext", "trunc", "freeze", "addrspacecast"):
             env[ins.dst] = self.val(ins.val, env, f)
@@ -319,6 +342,39 @@ class Interp:
             except Exception:  # noqa: BLE001  unknown type: offset unknown
                 off = None
             env[ins.dst] = ("p", base[1], off)
+            return None
+        if op == "load" and ins.ty and ins.ty.strip().startswith("{"):
+            # first-class aggregate load: gather the cells it covers
+            p = self.val(ins.ptr, env, f)
+            if is_ptr(p) and p[2] is not None:
+                try:
+                    size = sizeof(ins.ty, self.mod.structs)[0]
+                except Exception:  # noqa: BLE001
+                    size = 16
+                cells = tuple(sorted((o - p[2], c) for (r, o), c in path.mem.items() if r == p[1] and isinstance(o, int) and p[2] <= o < p[2] + size))
+                env[ins.dst] = ("aggv", ins.ty.strip(), cells)
+            else:
+                env[ins.dst] = ("load?", p)
+            return None
+        if op == "store" and ins.ty and ins.ty.strip().startswith("{"):
+            p = self.val(ins.ptr, env, f)
+            v = self.val(ins.val, env, f)
+            if is_ptr(p) and p[2] is not None:
+                if isinstance(v, tuple) and v and v[0] == "aggv":
+                    for ro, c in v[2]:
+                        path.mem[(p[1], p[2] + ro)] = c
+                else:
+                    # an aggregate produced by a call: its fields are extractvalue projections
+                    try:
+                        n = len(_split_args(ins.ty.strip()[1:-1]))
+                        for i in range(n):
+                            o, _ = field_offset(ins.ty.strip(), i, self.mod.structs)
+                            path.mem[(p[1], p[2] + o)] = ("xv", v, i)
+                    except Exception:  # noqa: BLE001
+                        path.mem[(p[1], p[2])] = v
+                if tracked_region(p[1]):
+                    path.emit(("writeblk", p[1], p[2], None, ("obj", v)))
+                    path.bump(p[1])
             return None
         if op == "load":
             p = self.val(ins.ptr, env, f)
@@ -391,6 +447,14 @@ class Interp:
         if op == "extractvalue":
             agg = self.val(ins.val, env, f) if ins.val else ("?", "agg")
             idx = int(ins.idx[0]) if ins.idx else 0
+            if isinstance(agg, tuple) and agg and agg[0] == "aggv":
+                try:
+                    o, _ = field_offset(agg[1], idx, self.mod.structs)
+                    hit = [c for ro, c in agg[2] if ro == o]
+                    env[ins.dst] = hit[0] if hit else ("xv", agg, idx)
+                except Exception:  # noqa: BLE001
+                    env[ins.dst] = ("xv", agg, idx)
+                return None
             while isinstance(agg, tuple) and agg and agg[0] == "iv":
                 if agg[3] == idx:
                     env[ins.dst] = agg[2]
@@ -489,7 +553,7 @@ class Interp:
             sretp = args[0]
         argterms = tuple(self.objterm(a, path) for a in (args[1:] if sretp is not None else args))
         if cls == "prim":
-            ev = (kind, short(dm).split("::operator()")[0].split("::")[-1] if "operator()" in dm else kind, tuple(args), argterms)
+            ev = (kind, short(dm).split("::operator()")[0].split("::")[-1] if "operator()" in dm else kind, tuple(args), argterms, short(dm))
             if kind == "alloc":
                 self.counter += 1
                 rv = ("p", ("heap", self.counter), 0)
@@ -531,6 +595,8 @@ class Interp:
                     rv = ("p", a[1], None) if not is_pure_value_accessor(dm) else rv
                     break
         ext = cls == "extern"
+        if re.match(r"^intersection\(", name):
+            path.emit(("intersect", name, argterms))
         if ext or non_const_on_tracked(dm, args):
             path.emit(("ext" if ext else "opaque", name, tuple(args), argterms))
         outs = [("ret", rv, path)]
@@ -580,6 +646,14 @@ def tracked_type(ty):
 
 def tracked_region(reg):
     return reg[0] in ("param", "heap") or (reg[0] == "alloca" and len(reg) > 3 and reg[3] is not None)
+
+
+def unxv(v):
+    while isinstance(v, tuple) and v and v[0] == "xv":
+        v = v[1]
+        if not (isinstance(v, tuple) and v and v[0] == "xv"):
+            return v
+    return None
 
 
 def is_ctor(dm):
